@@ -305,7 +305,10 @@ func (f *OptionalField) DoRead(r io.ReadSeeker, pg Page) (io.Reader, []int, erro
 		if err != nil {
 			return nil, nil, err
 		}
-		f.Defs = append(f.Defs, defs[:int(ph.DataPageHeader.NumValues)]...)
+		// only the first NumValues levels belong to the page; the rest is
+		// padding of the last bit-packed group and may hold anything
+		defs = defs[:int(ph.DataPageHeader.NumValues)]
+		f.Defs = append(f.Defs, defs...)
 		l += l2
 
 		n := f.valsFromDefs(defs, uint8(f.MaxLevels.Def))
